@@ -139,6 +139,12 @@ def _entries():
             (lambda k: lambda a: H.Polygon.regular_polygon(k, angle=a))(n), None, True)
         E["Polygon.regular_polygon/radius/n%d" % n] = (
             "scalar", [0.3, 1.0, 2.5], (lambda k: lambda r: H.Polygon.regular_polygon(k, radius=r))(n), None, True)
+    def _tv():
+        p = H.Point(np.array([1.0, 0.3, -0.2]))
+        return p.unit_tangent_towards(H.Point(np.array([1.0, -0.5, 0.4])))
+    E["TangentVector.point_along"] = ("scalar", [0.7, -1.3, 2.0], lambda t: _tv().point_along(t), None, True)
+    E["TangentVector.point_along/array"] = ("array", [[0.7], [2.0]], lambda t: H.TangentVector(np.stack([_tv().proj_data] * len(t))).point_along(np.asarray(t) if not isinstance(t, np.ndarray) else t), None, True)
+    E["hyperbolic.hyp_to_affine_dist"] = ("array", [[0.5, 1.0, -2.0], [3.0]], lambda r: H.hyp_to_affine_dist(r if isinstance(r, np.ndarray) else np.asarray(r, dtype=float)), None, True)
     E["hyperbolic.regular_polygon_radius"] = ("scalar", [0.4, 1.0], lambda a: H.regular_polygon_radius(5, a), None, True)
     E["hyperbolic.polygon_interior_angle"] = ("scalar", [0.3, 1.0, 2.0], lambda r: H.polygon_interior_angle(5, r), None, True)
     pts = [[0.1, 0.0], [0.5, -0.25], [1.0, 0.0], [0.0, 0.0], [[0.0, 1.0], [-1.0, 0.0]]]
